@@ -48,7 +48,7 @@ func init() {
 	share("C07", &RuleDoc{Name: "R-DEMUXER-NEVER-TYPED-NIL", Text: "When rtp.NewDemuxer fails, the stream's rtpDemuxer field is re-assigned a usable placeholder before prepareOtherStream returns (the failed call stores a typed nil into the interface field).", Run: ruleDemuxerNeverTypedNil})
 	share("C07", &RuleDoc{Name: "R-UDP-ERROR-NOT-FATAL", Text: "udpConsumer.Consume does not close the consumer on a datagram send error: one oversized packet (legal on TCP, too long for a datagram) must not end delivery of the following good packets.", Run: ruleUdpErrorNotFatal})
 	share("C06", &RuleDoc{Name: "R-WRAP-BOTH-WAYS", Text: "The 32-bit timestamp extension counts a wrap forwards and a step back across the wrap (a reordered or B-frame timestamp from before it): the wrap counter is both incremented and decremented.", Run: ruleWrapBothWays})
-	share("C06", &RuleDoc{Name: "R-MIN-PAYLOAD", Text: "The depacketisers' entry guards refuse only payloads shorter than three bytes: a three-byte unit (the H.265 access-unit delimiter) sent as its own packet is a legal single NAL unit.", Run: ruleMinPayload})
+	share("C06", &RuleDoc{Name: "R-MIN-PAYLOAD", Text: "The depacketisers' entry guards refuse only payloads shorter than the NAL unit header (1 byte in H.264, 2 bytes in H.265): the H.264 access unit delimiter (2 bytes), end-of-sequence units (header only) and the three-byte H.265 delimiter sent as their own packets are legal single NAL units.", Run: ruleMinPayload})
 	share("C03", &RuleDoc{Name: "R-STOP-ON-ATTACHED-STREAM", Text: "A consumer object detaches (StopConsume with its own consumer id) from the stream object it attached to, kept in a field - never from a stream looked up again by path, which after a replacement is a different stream on which the same id may belong to somebody else. (The management API, which stops a consumer chosen by path and id, is the intended exception.)", Run: ruleStopOnAttachedStream})
 	members := &RuleDoc{Name: "R-MEMBERS-TRACKED", Text: "multicastProxy.AddMember records the member on every path on which it returns without having failed to start the proxy - not only for the first member: the proxy stops when the LAST member leaves, and a stream end closes every member's connection.", Run: ruleMembersTracked}
 	share("C03", members)
@@ -56,7 +56,9 @@ func init() {
 	share("C01", &RuleDoc{Name: "R-PROXY-REOPENS", Text: "multicastProxy.AddMember clears the proxy's closed flag on the path where it attaches the proxy to the stream again: a proxy that was closed when its last member left delivers again after a re-join.", Run: ruleProxyReopens})
 	addMutants(
 		&Mutant{Prop: "C06", Name: "c06-h265-min-payload-four", File: "av/format/rtp/h265_depacketizer.go",
-			Old: "\tpayload := packet.Payload()\n\tif len(payload) < 3 {", New: "\tpayload := packet.Payload()\n\tif len(payload) <= 3 {", Expect: "R-MIN-PAYLOAD"},
+			Old: "\tpayload := packet.Payload()\n\tif len(payload) < 2 {", New: "\tpayload := packet.Payload()\n\tif len(payload) <= 3 {", Expect: "R-MIN-PAYLOAD"},
+		&Mutant{Prop: "C06", Name: "c06-h264-min-payload-three", File: "av/format/rtp/h264_depacketizer.go",
+			Old: "\tpayload := packet.Payload()\n\tif len(payload) < 1 {", New: "\tpayload := packet.Payload()\n\tif len(payload) < 3 {", Expect: "R-MIN-PAYLOAD"},
 		&Mutant{Prop: "C03", Name: "c03-tcp-consumer-stops-by-path", File: "service/rtsp/session_roles.go",
 			Old: "\tc.closed = true\n\tc.source.StopConsume(c.cid)\n\tc.source = nil\n\treturn nil\n}\n\ntype udpConsumer struct", New: "\tc.closed = true\n\tif st := media.Get(c.path); st != nil {\n\t\tst.StopConsume(c.cid)\n\t}\n\tc.source = nil\n\treturn nil\n}\n\ntype udpConsumer struct", Expect: "R-STOP-ON-ATTACHED-STREAM"},
 		&Mutant{Prop: "C03", Name: "c03-only-first-member-tracked", File: "service/rtsp/multicast_proxy.go",
@@ -207,7 +209,7 @@ func ruleAggClassifyEvery(c *Ctx) {
 		good := false
 		instrs(fn, func(ins ssa.Instruction) {
 			cc := callCommon(ins)
-			if cc == nil || cc.StaticCallee() == nil || cc.StaticCallee().Name() != "nalType" {
+			if cc == nil || cc.StaticCallee() == nil || baseFuncName(cc.StaticCallee()) != "nalType" {
 				return
 			}
 			// a classification that is executed on every iteration before the finish test
@@ -236,7 +238,7 @@ func ruleClosedFlagOwned(c *Ctx) {
 					return
 				}
 				f, base, ok := fieldAddr(st.Addr)
-				if !ok || f.Name() != "closed" {
+				if !ok || theProgram.baseFieldName(f) != "closed" {
 					return
 				}
 				if b, isc := constBool(st.Val); !isc || !b {
@@ -285,7 +287,7 @@ func rulePlayAttachesOnce(c *Ctx) {
 		if cc == nil || cc.StaticCallee() == nil {
 			return
 		}
-		switch cc.StaticCallee().Name() {
+		switch baseFuncName(cc.StaticCallee()) {
 		case "asTCPConsumer", "asUDPConsumer", "asMulticastConsumer":
 		default:
 			return
@@ -299,13 +301,13 @@ func rulePlayAttachesOnce(c *Ctx) {
 			}
 			f, _, okf := fieldLoad(stripConv(bo.X))
 			k, okk := constInt(bo.Y)
-			if okf && okk && f.Name() == "status" && k == playing {
+			if okf && okk && theProgram.baseFieldName(f) == "status" && k == playing {
 				if bo.Op == token.EQL && !taken || bo.Op == token.NEQ && taken {
 					notPlaying = true
 				}
 			}
 		})
-		c.Decide(notPlaying, "play-attaches-once:"+cc.StaticCallee().Name(), p.InstrPos(ins), "status != Playing established", "a consumer is attached on a path where the session may already be playing (the 'already playing' answer depends on something besides the status): the second PLAY attaches a second consumption and overwrites s.consumer, the session end stops only the newest one and the first stays registered until the stream ends")
+		c.Decide(notPlaying, "play-attaches-once:"+baseFuncName(cc.StaticCallee()), p.InstrPos(ins), "status != Playing established", "a consumer is attached on a path where the session may already be playing (the 'already playing' answer depends on something besides the status): the second PLAY attaches a second consumption and overwrites s.consumer, the session end stops only the newest one and the first stays registered until the stream ends")
 	})
 	c.Floor("consumer role calls in onPlay", n, 3)
 }
@@ -357,7 +359,7 @@ func ruleClassifyVideoOnly(c *Ctx) {
 		c.touched(fname(fn))
 		instrs(fn, func(ins ssa.Instruction) {
 			cc := callCommon(ins)
-			if cc == nil || cc.StaticCallee() == nil || cc.StaticCallee().Name() != "getPalyloadType" {
+			if cc == nil || cc.StaticCallee() == nil || baseFuncName(cc.StaticCallee()) != "getPalyloadType" {
 				return
 			}
 			n++
@@ -383,7 +385,7 @@ func ruleRegistSameIsNoop(c *Ctx) {
 		if cc == nil || cc.StaticCallee() == nil {
 			return
 		}
-		nm := cc.StaticCallee().Name()
+		nm := baseFuncName(cc.StaticCallee())
 		if nm != "close" && nm != "Close" && nm != "runZeroConsumersCloseTask" {
 			return
 		}
@@ -427,12 +429,12 @@ func ruleHlsAccessStampedFirst(c *Ctx) {
 	res := RunPath(&PathRule[bool]{Fn: fn, Init: []bool{false},
 		Transfer: func(s bool, ins ssa.Instruction) []bool {
 			if cc := callCommon(ins); cc != nil && strings.HasPrefix(calleeName(cc), "sync/atomic.Store") && len(cc.Args) > 0 {
-				if f, _, ok := fieldAddr(cc.Args[0]); ok && f.Name() == "lastAccessTime" {
+				if f, _, ok := fieldAddr(cc.Args[0]); ok && theProgram.baseFieldName(f) == "lastAccessTime" {
 					return []bool{true}
 				}
 			}
 			if st, ok := ins.(*ssa.Store); ok {
-				if f, _, ok := fieldAddr(st.Addr); ok && f.Name() == "lastAccessTime" {
+				if f, _, ok := fieldAddr(st.Addr); ok && theProgram.baseFieldName(f) == "lastAccessTime" {
 					return []bool{true}
 				}
 			}
@@ -472,7 +474,7 @@ func ruleSegmentFlushedBeforeListed(c *Ctx) {
 		}
 		name := ""
 		if cc.StaticCallee() != nil {
-			name = cc.StaticCallee().Name()
+			name = baseFuncName(cc.StaticCallee())
 		} else if cc.IsInvoke() {
 			name = cc.Method.Name()
 		}
@@ -518,7 +520,7 @@ func ruleClearGuardAgrees(c *Ctx) {
 		if !isCall || calleeName(&call.Call) != "builtin.len" {
 			return
 		}
-		if f, _, ok := fieldLoad(call.Call.Args[0]); !ok || f.Name() != "segments" {
+		if f, _, ok := fieldLoad(call.Call.Args[0]); !ok || theProgram.baseFieldName(f) != "segments" {
 			return
 		}
 		// only the entry guard (not the loop bound i < len-remain)
@@ -597,7 +599,7 @@ func ruleTsParamsLive(c *Ctx) {
 	n := 0
 	instrs(fn, func(ins ssa.Instruction) {
 		cc := callCommon(ins)
-		if cc == nil || cc.StaticCallee() == nil || cc.StaticCallee().Name() != "prepareAvcHeader" {
+		if cc == nil || cc.StaticCallee() == nil || baseFuncName(cc.StaticCallee()) != "prepareAvcHeader" {
 			return
 		}
 		n++
@@ -629,7 +631,7 @@ func ruleHevcPltTier(c *Ctx) {
 	c.touched(fname(fn))
 	good := false
 	for _, st := range storesToField(fn, modRel("av/format/flv"), "HEVCDecoderConfigurationRecord", "GeneralTierFlag") {
-		if f, _, ok := fieldLoad(stripConv(st.Val)); ok && f.Name() == "General_tier_flag" {
+		if f, _, ok := fieldLoad(stripConv(st.Val)); ok && theProgram.baseFieldName(f) == "General_tier_flag" {
 			// under the `ptl tier > record tier` test
 			domConds(st, func(cond ssa.Value, taken bool) {
 				if bo, ok := cond.(*ssa.BinOp); ok {
@@ -660,7 +662,7 @@ func ruleDemuxerNeverTypedNil(c *Ctx) {
 	}
 	isDemuxField := func(addr ssa.Value) bool {
 		f, _, ok := fieldAddr(addr)
-		return ok && f.Name() == "rtpDemuxer"
+		return ok && theProgram.baseFieldName(f) == "rtpDemuxer"
 	}
 	bad := false
 	res := RunPath(&PathRule[st]{Fn: fn, Init: []st{{}},
@@ -668,7 +670,7 @@ func ruleDemuxerNeverTypedNil(c *Ctx) {
 			if sto, ok := ins.(*ssa.Store); ok && isDemuxField(sto.Addr) {
 				fromCall := false
 				walkDeps(sto.Val, func(x ssa.Value) bool {
-					if call, ok := x.(*ssa.Call); ok && call.Call.StaticCallee() != nil && call.Call.StaticCallee().Name() == "NewDemuxer" {
+					if call, ok := x.(*ssa.Call); ok && call.Call.StaticCallee() != nil && baseFuncName(call.Call.StaticCallee()) == "NewDemuxer" {
 						fromCall = true
 					}
 					return true
@@ -684,7 +686,7 @@ func ruleDemuxerNeverTypedNil(c *Ctx) {
 				for _, side := range []ssa.Value{bo.X, bo.Y} {
 					walkDeps(side, func(x ssa.Value) bool {
 						if ex, ok := x.(*ssa.Extract); ok && ex.Index == 1 {
-							if call, ok := ex.Tuple.(*ssa.Call); ok && call.Call.StaticCallee() != nil && call.Call.StaticCallee().Name() == "NewDemuxer" {
+							if call, ok := ex.Tuple.(*ssa.Call); ok && call.Call.StaticCallee() != nil && baseFuncName(call.Call.StaticCallee()) == "NewDemuxer" {
 								isErr = true
 							}
 						}
@@ -732,7 +734,7 @@ func ruleUdpErrorNotFatal(c *Ctx) {
 		}
 		name := ""
 		if cc.StaticCallee() != nil {
-			name = cc.StaticCallee().Name()
+			name = baseFuncName(cc.StaticCallee())
 		} else if cc.IsInvoke() {
 			name = cc.Method.Name()
 		}
@@ -810,7 +812,13 @@ func ruleMinPayload(c *Ctx) {
 			continue
 		}
 		n++
-		c.Decide(threshold <= 3, "min-payload@"+fname(fn), p.InstrPos(first), fmt.Sprintf("payloads shorter than %d bytes are refused", threshold), fmt.Sprintf("payloads shorter than %d bytes are refused: a single NAL unit packet of %d bytes (the H.265 access-unit delimiter 46 01 x0) is discarded although it is a complete unit", threshold, threshold-1))
+		// the shortest complete unit is the bare NAL header: 1 byte in H.264 (end of sequence 0x0a; the
+		// access unit delimiter 09 f0 has 2), 2 bytes in H.265 (end of sequence / end of bitstream)
+		hdr, example := int64(1), "the H.264 access unit delimiter 09 f0 or the one-byte end-of-sequence unit"
+		if t == "h265Depacketizer" {
+			hdr, example = 2, "the H.265 end-of-sequence unit, or with a larger threshold the access unit delimiter 46 01 x0"
+		}
+		c.Decide(threshold <= hdr, "min-payload@"+fname(fn), p.InstrPos(first), fmt.Sprintf("payloads shorter than %d bytes are refused", threshold), fmt.Sprintf("payloads shorter than %d bytes are refused although a complete NAL unit may be as short as its %d-byte header: a single NAL unit packet carrying %s is discarded, so the frames handed to the remuxers are not exactly the units the sender packetised", threshold, hdr, example))
 	}
 	if n == 0 {
 		c.OK("min-payload", "", "the depacketisers refuse no payload by length alone at entry")
@@ -828,12 +836,12 @@ func ruleProxyReopens(c *Ctx) {
 	type st struct{ Attached, Reopened bool }
 	res := RunPath(&PathRule[st]{Fn: fn, Init: []st{{}},
 		Transfer: func(s st, ins ssa.Instruction) []st {
-			if cc := callCommon(ins); cc != nil && cc.StaticCallee() != nil && strings.HasPrefix(cc.StaticCallee().Name(), "StartConsume") {
+			if cc := callCommon(ins); cc != nil && cc.StaticCallee() != nil && strings.HasPrefix(baseFuncName(cc.StaticCallee()), "StartConsume") {
 				s.Attached = true
 				return []st{s}
 			}
 			if sto, ok := ins.(*ssa.Store); ok {
-				if f, _, ok := fieldAddr(sto.Addr); ok && f.Name() == "closed" {
+				if f, _, ok := fieldAddr(sto.Addr); ok && theProgram.baseFieldName(f) == "closed" {
 					if b, isc := constBool(sto.Val); isc && !b {
 						s.Reopened = true
 						return []st{s}
@@ -882,7 +890,7 @@ func ruleMembersTracked(c *Ctx) {
 			return false
 		}
 		f, _, ok := fieldLoad(call.Call.Args[0])
-		return ok && f.Name() == "members"
+		return ok && theProgram.baseFieldName(f) == "members"
 	}
 	res := RunPath(&PathRule[st]{Fn: fn, Init: []st{{}},
 		Branch: func(s st, cond ssa.Value, taken bool) (st, bool) {
@@ -912,13 +920,13 @@ func ruleMembersTracked(c *Ctx) {
 		},
 		Transfer: func(s st, ins ssa.Instruction) []st {
 			if sto, ok := ins.(*ssa.Store); ok {
-				if f, _, ok := fieldAddr(sto.Addr); ok && f.Name() == "members" {
+				if f, _, ok := fieldAddr(sto.Addr); ok && theProgram.baseFieldName(f) == "members" {
 					s.Added = true
 					return []st{s}
 				}
 			}
 			if cc := callCommon(ins); cc != nil && cc.StaticCallee() != nil {
-				n := cc.StaticCallee().Name()
+				n := baseFuncName(cc.StaticCallee())
 				if n == "Error" || n == "Errorf" {
 					s.Failed = true
 					return []st{s}
@@ -969,7 +977,7 @@ func ruleStopOnAttachedStream(c *Ctx) {
 				looked := false
 				walkDeps(recv, func(x ssa.Value) bool {
 					if call, ok := x.(*ssa.Call); ok && call.Call.StaticCallee() != nil {
-						nm := call.Call.StaticCallee().Name()
+						nm := baseFuncName(call.Call.StaticCallee())
 						if (nm == "Get" || nm == "GetOrCreate") && strings.HasSuffix(funcPkgPath(call.Call.StaticCallee()), "/media") {
 							looked = true
 						}
@@ -990,7 +998,7 @@ func ruleStopOnAttachedStream(c *Ctx) {
 				for _, g := range withAnons(root) {
 					instrs(g, func(i2 ssa.Instruction) {
 						c2 := callCommon(i2)
-						if c2 == nil || c2.StaticCallee() == nil || !strings.HasPrefix(c2.StaticCallee().Name(), "StartConsume") || len(c2.Args) == 0 {
+						if c2 == nil || c2.StaticCallee() == nil || !strings.HasPrefix(baseFuncName(c2.StaticCallee()), "StartConsume") || len(c2.Args) == 0 {
 							return
 						}
 						if origin(c2.Args[0]) == recv {
